@@ -956,6 +956,11 @@ class Interp:
             for t in s.targets:
                 if isinstance(t, ast.Subscript):
                     base = self.eval(t.value, env)
+                    if isinstance(t.slice, ast.Slice) and isinstance(base, Lst):
+                        lo = self.index(self.eval(t.slice.lower, env)) if t.slice.lower is not None else None
+                        hi = self.index(self.eval(t.slice.upper, env)) if t.slice.upper is not None else None
+                        del base.items[lo:hi]
+                        continue
                     k = self.eval(t.slice, env)
                     if isinstance(base, Lst):
                         del base.items[self.index(k)]
@@ -1479,7 +1484,11 @@ class Interp:
             raise Undecided("len of %r" % (v,))
         if n in ("min", "max"):
             return self._minmax(n, args, kwargs, node)
-        if n in ("float", "math.fabs") or n == "int" and isinstance(args[0], Lin) and args[0].is_const():
+        if n == "int" and isinstance(args[0], Lin) and args[0].is_const():
+            c = args[0].const
+            import math as _m
+            return Lin.num(_m.trunc(c))
+        if n in ("float", "math.fabs"):
             v = args[0]
             if isinstance(v, Lin):
                 return v
@@ -1515,7 +1524,8 @@ class Interp:
                 return Lst(list(reversed(items)))
             return Lst(self._sort(items, kwargs.get("key"), kwargs.get("reverse")))
         if n == "enumerate":
-            return Lst([Tup([Lin.num(i), x]) for i, x in enumerate(self.iterate(args[0]))])
+            start = self.index(args[1]) if len(args) > 1 else (self.index(kwargs["start"]) if "start" in kwargs else 0)
+            return Lst([Tup([Lin.num(i), x]) for i, x in enumerate(self.iterate(args[0]), start)])
         if n == "zip":
             return Lst([Tup(list(t)) for t in zip(*[self.iterate(a) for a in args])])
         if n == "range":
@@ -1524,6 +1534,21 @@ class Interp:
         if n in ("any", "all"):
             vals = [self.truth(x) for x in self.iterate(args[0])]
             return any(vals) if n == "any" else all(vals)
+        if n == "bool":
+            return self.truth(args[0]) if args else False
+        if n == "next":
+            items = self.iterate(args[0])
+            if items:
+                return items[0]
+            if len(args) > 1:
+                return args[1]
+            raise PyRaise("StopIteration", node)
+        if n == "sum":
+            items = self.iterate(args[0])
+            tot = self.num(args[1]) if len(args) > 1 else Lin.num(0)
+            for x in items:
+                tot = tot + self.num(x)
+            return tot
         if n == "print":
             self.prints += 1
             return None
@@ -1551,7 +1576,21 @@ class Interp:
         if n in ("copy.deepcopy", "copy.copy"):
             return self.deepcopy(args[0])
         if n in ("OrderedDict", "collections.OrderedDict", "dict"):
-            return DictVal()
+            d = DictVal()
+            if args:
+                src = args[0]
+                if isinstance(src, DictVal):
+                    for k, v in src.d.items():
+                        d.d[k] = v
+                else:
+                    for pair in self.iterate(src):
+                        kv = self.iterate(pair)
+                        if len(kv) != 2:
+                            raise PyRaise("ValueError", node)
+                        d.d[self.dict_key(d, kv[0], create=True)] = kv[1]
+            for k, v in kwargs.items():
+                d.d[k] = v
+            return d
         if n.startswith("list."):
             return self._list_method(n[5:], recv, args, kwargs, node)
         if n.startswith("dict."):
@@ -1892,5 +1931,6 @@ EXT_CONSTS = {
 _BUILTIN_NAMES = {
     "len", "min", "max", "float", "int", "abs", "isinstance", "list", "tuple", "sorted", "reversed", "set", "enumerate",
     "zip", "range", "any", "all", "print", "str", "repr", "type", "filter", "map", "round", "dict", "frozenset", "iter", "bool",
+    "next", "sum",
 }
 _BUILTIN_EXC = {"ValueError", "IndexError", "KeyError", "TypeError", "Exception", "NotImplementedError", "AssertionError", "UnicodeError", "RuntimeError", "AttributeError"}
